@@ -211,13 +211,17 @@ func first(xs []string) string {
 	return xs[0]
 }
 
-func (h *harness) judge(c *rep.Case, layer string, pt *point, ex *expect, zones map[string]answer, results []authres.Result, value, action string, log []string) {
+// judge compares one observation with the model and reports whether it flagged
+// the point. A wrong verdict is the root cause of the wrong action that
+// follows from it, so the action is judged only when the verdict was right.
+func (h *harness) judge(c *rep.Case, layer string, pt *point, ex *expect, zones map[string]answer, results []authres.Result, value, action string, log []string) (flagged bool) {
 	r := h.r
 	r.Count("obs_"+layer+"_action_"+action, 1)
 	if value != "" {
 		r.Count("obs_"+layer+"_value_"+value, 1)
 	}
 	viol := func(sig, what string) {
+		flagged = true
 		c.Violation(layer+"/"+sig, what, witness{
 			Layer: layer, Point: pt, Zones: zoneStrings(zones), Results: authres.Format("mx.example.net", results),
 			ExpectAligned: ex.Aligned, ExpectAllowed: ex.Allowed, ExpectWhy: ex.Why, ExpectPolicy: ex.Published + " via " + ex.Via,
@@ -227,7 +231,7 @@ func (h *harness) judge(c *rep.Case, layer string, pt *point, ex *expect, zones 
 	pass := value == "pass"
 	if pt.Shape == ShOpen {
 		r.Count("not_judged_open_from_shape", 1)
-		return
+		return false
 	}
 	if !ex.AuthorOK {
 		r.Count("judged_author_never_pass", 1)
@@ -235,7 +239,7 @@ func (h *harness) judge(c *rep.Case, layer string, pt *point, ex *expect, zones 
 			viol("author/pass-with-"+pt.Shape+"-author-addresses/"+pt.ShapeKind,
 				fmt.Sprintf("header with %s author addresses (%s) obtained dmarc=pass", pt.Shape, pt.ShapeKind))
 		}
-		return
+		return flagged
 	}
 	if ex.TempDNS {
 		r.Count("judged_dns_tempfail", 1)
@@ -243,24 +247,27 @@ func (h *harness) judge(c *rep.Case, layer string, pt *point, ex *expect, zones 
 			viol("dns-tempfail/"+pt.Lookup+"/observed="+action,
 				fmt.Sprintf("temporary DNS failure while fetching the policy of %s (%s): expected a temporary refusal, observed %s (dmarc=%s)", pt.From, pt.Lookup, action, value))
 		}
-		return
+		return flagged
 	}
 	if pass && !ex.Aligned {
-		viol("verdict/pass-without-alignment/"+first(ex.PassingIDs),
+		viol("verdict/pass-without-alignment/nearest="+first(ex.PassingIDs),
 			fmt.Sprintf("dmarc=pass for From domain %s although no passing identifier is aligned (adkim=%q aspf=%q, passing: %v)", pt.From, pt.Rec.ADKIM, pt.Rec.ASPF, ex.PassingIDs))
 	}
 	if ex.PassIff {
 		r.Count("judged_verdict_iff", 1)
 		if ex.Aligned && !pass && value != "" {
-			viol("verdict/aligned-but-"+value+"/"+first(ex.AlignedIDs),
+			viol("verdict/aligned-but-"+value+"/nearest="+first(ex.AlignedIDs),
 				fmt.Sprintf("dmarc=%s for From domain %s although %v is aligned", value, pt.From, ex.AlignedIDs))
 		}
 	} else {
 		r.Count("judged_verdict_pass_implies_aligned_only", 1)
 	}
+	if flagged {
+		return true
+	}
 	if ex.Allowed == nil {
 		r.Count("not_judged_action_"+ex.Why, 1)
-		return
+		return false
 	}
 	r.Count("judged_action_"+ex.Why, 1)
 	if !contains(ex.Allowed, action) {
@@ -271,6 +278,7 @@ func (h *harness) judge(c *rep.Case, layer string, pt *point, ex *expect, zones 
 		viol("action/"+ex.Why+pub+"/observed="+action,
 			fmt.Sprintf("From domain %s, lookup %s, rule %s: allowed %v, observed %s (dmarc=%s)", pt.From, pt.Lookup, ex.Why, ex.Allowed, action, value))
 	}
+	return flagged
 }
 
 // evalPoint runs one point through the verifier and, if asked, the pipeline.
@@ -280,12 +288,17 @@ func (h *harness) evalPoint(c *rep.Case, pt *point, hdr textproto.Header, zones 
 	h.res.set(zones)
 	value, action := h.verifier(hdr, results)
 	h.r.Count("dns_queries", int64(h.res.nQueries()))
-	h.judge(c, "verifier", pt, &ex, zones, results, value, action, nil)
+	flagged := h.judge(c, "verifier", pt, &ex, zones, results, value, action, nil)
 	if pipeline {
 		h.res.set(zones)
 		pv, pa, log := h.deliver(hdr, results)
 		h.r.Count("dns_queries", int64(h.res.nQueries()))
-		h.judge(c, "pipeline", pt, &ex, zones, results, pv, pa, log)
+		if flagged {
+			// the pipeline embeds the verifier: one root cause, one report
+			h.r.Count("pipeline_not_judged_verifier_already_flagged", 1)
+		} else {
+			h.judge(c, "pipeline", pt, &ex, zones, results, pv, pa, log)
+		}
 	}
 	if shapes != nil && pt.Shape != ShOpen {
 		why := ex.Why
@@ -321,7 +334,7 @@ var allModes = [][2]string{{"r", "r"}, {"r", "s"}, {"s", "r"}, {"s", "s"}}
 
 var uCore = &universe{
 	Name:     "core",
-	Froms:    []string{"example.org", "mail.example.org"},
+	Froms:    []string{"example.org", "mail.example.org", "a.mail.example.org"},
 	Auth:     []string{"example.org", "mail.example.org", "other.example.org", "org", "example.com"},
 	Policies: allPolicies,
 	Modes:    allModes,
@@ -356,6 +369,11 @@ func latticeBlocks(thorough bool) []block {
 	for _, u := range []*universe{uCore, uSuffix} {
 		for _, f := range u.Froms {
 			for _, lk := range u.Lookups {
+				if lk != LkAtDomain && orgOf[lowerASCII(f)] == lowerASCII(f) {
+					// no other name to fall back to: the outcome is "no policy" whatever the record says
+					out = append(out, block{U: u, F: f, Lookup: lk, P: "reject", SP: "reject", ADKIM: "r", ASPF: "r", NDKIM: 1})
+					continue
+				}
 				for _, pol := range u.Policies {
 					for _, m := range u.Modes {
 						out = append(out, block{U: u, F: f, Lookup: lk, P: pol[0], SP: pol[1], ADKIM: m[0], ASPF: m[1], NDKIM: 1})
@@ -380,12 +398,21 @@ func latticeBlocks(thorough bool) []block {
 		}
 	}
 	if thorough {
-		u := uCore
-		for _, f := range u.Froms {
-			for _, lk := range []string{LkAtDomain, LkNXThenOrg} {
-				for _, pol := range u.Policies {
-					for _, m := range u.Modes {
-						out = append(out, block{U: u, F: f, Lookup: lk, P: pol[0], SP: pol[1], ADKIM: m[0], ASPF: m[1], NDKIM: 2})
+		// every unordered pair of DKIM results
+		for _, u := range []*universe{uCore, uSuffix} {
+			modes := u.Modes
+			if u == uSuffix {
+				modes = [][2]string{{"r", "r"}, {"s", "s"}}
+			}
+			for _, f := range u.Froms {
+				for _, lk := range []string{LkAtDomain, LkNXThenOrg} {
+					if lk != LkAtDomain && orgOf[lowerASCII(f)] == lowerASCII(f) {
+						continue
+					}
+					for _, pol := range u.Policies {
+						for _, m := range modes {
+							out = append(out, block{U: u, F: f, Lookup: lk, P: pol[0], SP: pol[1], ADKIM: m[0], ASPF: m[1], NDKIM: 2})
+						}
 					}
 				}
 			}
@@ -610,7 +637,7 @@ func TestVerif(t *testing.T) {
 	r.Set("exhaustive_lattice", fmt.Sprintf("%d blocks: every (DKIM result set, SPF result) combination of each block", len(blocks)))
 	r.Set("exhaustive", true)
 
-	ns := r.N(150, 5000)
+	ns := r.N(150, 15000)
 	for i := 0; i < ns; i++ {
 		r.Run(baseSample+i, fmt.Sprintf("sample-%d", i), func(c *rep.Case) { h.runSample(c, baseSample+i) })
 	}
